@@ -599,7 +599,7 @@ func c24tx(c *rig.Ctx) {
 	for i := 0; i < nruns; i++ {
 		rr := c.SubRand("c24tx", i)
 		run := &c24TxRun{c: c, srv: srv, db: fmt.Sprintf("c24t_%d", i), run: i}
-		nsess := 7 + rr.Intn(4)
+		nsess := 8 + rr.Intn(3)
 		ntx := 40*3/nsess + 2
 		c.Case(fmt.Sprintf("c24/txns/%d", i), map[string]any{"db": run.db, "sessions": nsess, "tx_per_session": ntx, "note": "statements are generated from SubRand(c24tx/<run>/w, session); replay = same seed"})
 		m0 := pc.merge.Load()
@@ -614,7 +614,7 @@ func c24tx(c *rig.Ctx) {
 		if i < 2 {
 			c.Sample(map[string]any{"db": run.db, "sessions": nsess, "stats": st, "recent_commits": head2(run.recent(), 4)})
 		}
-		if distinctViolationKeys() > 8 {
+		if distinctViolationKeys() > 25 {
 			break
 		}
 	}
@@ -656,10 +656,10 @@ func (r *c24TxRun) exec(nsess, ntx int) map[string]int {
 	for i := range workers {
 		wr := c.SubRand(fmt.Sprintf("c24tx/%d/w", r.run), i)
 		w := &c24Worker{id: i, stats: map[string]int{}, g: &c24Gen{r: wr, tag: fmt.Sprintf("s%d", i), idLo: int64(1000 * (i + 1))}}
-		switch { // two sessions each on the excluded branches (so that they race among themselves), the rest on main
-		case i < 2:
+		switch { // three forcing and two fk-checks-off sessions on the excluded branches (so that they race among themselves), the rest on main
+		case i < 3:
 			w.branch = "force"
-		case i < 4:
+		case i < 5:
 			w.branch = "nofk"
 		default:
 			w.branch = "main"
